@@ -101,7 +101,7 @@ META['C19'] = {
             'extracted from eval_int never panics and that + - * are 64-bit wrapping and / is truncating division with / 0 yielding a value; Verus proves that literal '
             'parsing cannot unwrap an Err and that run_calculator selects float mode iff the line contains a dot.',
     'note': 'precedence/associativity (pest Pratt parser + grammar.pest) and is_arithmetic (regexes) are external and not covered; i64::pow modelled by its debug-build '
-            'definition; std parse contracts; float arithmetic is IEEE by definition of f64.',
+            'definition; std parse contracts; float arithmetic is IEEE by definition of f64; run_pipeline evaluates an arithmetic line before it looks up a function (U-FD).',
     'technique': 'Kani full-domain loop-free harness on the mechanically extracted kernel + Verus contracts on the extracted literal/mode code',
 }
 
@@ -111,7 +111,8 @@ META['C10'] = {
             'the text after the reference is scanned again, so inserted values are never rescanned and the scan terminates (decreases: length of the rest); every other word keeps its text; '
             'the number of tokens never changes; tags change only from empty to double-quoted when the value brings an operator character (C13).',
     'note': 'the two reference patterns and the gate (env_in_token) are uninterpreted regexes: "group 3 is a proper suffix, head + reference + tail is the text" is validated on a bounded '
-            'set by axcheck (env_ref); env::var / getpid through shims; after fix 3097820 no finding is listed.',
+            'set by axcheck (env_ref); env::var / getpid through shims; the text of a command substitution is copied as it is (split_first_substitution external here, contract in U-EXP3); '
+            'the variable store clauses of U-ENV are reported for C10 as well; no finding is listed.',
 }
 META['C17'] = {
     'text': 'Verus proves that expand_alias replaces exactly the words at head positions (line start or after an unquoted "|"; documented exception after a head `xargs`) that are '
@@ -127,7 +128,8 @@ META['C02'] = {
             'end survives in any child and that the shell closes its copies (so EOF can propagate); against an adversarial waitpid the foreground wait classifies every event and '
             'reports the status of the last stage\'s latest event (128+signal when killed).',
     'note': 'POSIX pipe/dup2/close/fork semantics assumed (ghost kernel contracts); that bytes written to a pipe arrive at its read end and EOF follows the last close is kernel '
-            'behaviour (assumed); liveness of waitpid assumed; known findings: wait counts events not processes; N>&M on a captured last stage; stage-start failure paths.',
+            'behaviour (assumed); liveness of waitpid assumed; the wait listens to every child (waitpid(-1), a labelled precondition), every started foreground stage is waited for also under capture and the '
+            'pipeline\'s status is the one the wait reports; known finding (bounded): a here-string larger than the pipes in a stage that is not the last blocks the shell.',
 }
 META['C04'] = {
     'text': 'Verus proves that at exec the descriptors 1 and 2 of a stage are exactly the result of applying its redirections left to right (N>&M copies what M refers to at that point; '
@@ -135,14 +137,15 @@ META['C04'] = {
             'unopenable targets exit(1) before exec; only the redirected stage is affected (the shell\'s table is restored).',
     'note': 'regex captures of redirection spellings are uninterpreted (triples as produced), but the pending state of an operator whose target is the next word is proved to be that of '
             'the previous word; builtins\' own descriptor computation (_get_std_fds and the print helpers) is under contract in U-BFD; open(2) semantics assumed; '
-            'known finding: N>&M is skipped on the captured last stage ($(cmd 2>&1)).',
+            'input redirections are taken from left to right (the last one on the line is in effect), `<` / `<<<` may be glued to the word in front; for builtins: an unreadable `<` file or unopenable target fails the '
+            'builtin without running it, redirected output is not captured; no finding is listed.',
 }
 META['C08'] = {
     'text': 'Verus proves, for every pipeline length, every redirection list and every choice of descriptor numbers by the kernel, that a spawned program starts with exactly {0,1,2} '
             'open (descriptors with FD_CLOEXEC are not counted) and that run_pipeline leaves the shell\'s descriptor table exactly as it found it on every path, including pipe() '
             'failure while creating the stage pipes or the capture pipes.',
     'note': 'precondition: the shell itself has only 0,1,2 (plus close-on-exec handles: history DB, log) when a pipeline starts; POSIX semantics assumed; builtins\' print helpers '
-            '(dup of 1/2) are under contract in U-BFD (the table afterwards = the table before + exactly the descriptors handed back); known finding: when starting a stage fails (here-string pipe or fork error) that stage\'s descriptors stay open.',
+            '(dup of 1/2) are under contract in U-BFD (the table afterwards = the table before + exactly the descriptors handed back); a stage that cannot be started releases its descriptors and makes the pipeline\'s status non-zero; no finding is listed.',
 }
 
 META['C09'] = {
@@ -151,7 +154,8 @@ META['C09'] = {
             'removes the name from both (and the function of that name) iff it is an identifier, else changes nothing; cd: on success shell, $PWD and process directory all equal the '
             'canonical target and the previous directory is recorded, on any failure nothing changes and the status is 1; NAME=v lines assign every name.',
     'note': 'std::env and chdir semantics assumed (ghost model); filesystem queries uninterpreted; export (regex captures) and the child environment construction (inside the exec region) are '
-            'not under contract; read is (U-READ: fields to the names in order, remainder to the last; field splitting itself uninterpreted); HashMap contracts stated over string views.',
+            'not under contract (bounded: a prefix replaces an exported name); read is (U-READ: fields to the names in order, remainder to the last; field splitting itself uninterpreted); unquote is (U-TOK); '
+            'HashMap contracts stated over string views; known finding (bounded): the value of an assignment is unquoted after expansion.',
 }
 
 META['C15'] = {
@@ -171,7 +175,8 @@ META['C07'] = {
             'reported to the caller; run_proc takes the terminal back on every return path; a line is background exactly when its last token is an unquoted "&"; the job-state '
             'bookkeeping clauses shared with C06 (Stopped iff all members stopped as computed; no background event lost).',
     'note': 'bg / fg are under contract (U-JCMD): the job found gets SIGCONT as a whole group, fg hands it the terminal, waits for all its members and takes the terminal back. '
-            'NOT covered (outside any single-call contract): what Ctrl-C / Ctrl-Z do, the text printed by jobs, report-once; kernel tty layer and tcsetpgrp success assumed.',
+            '`jobs` lists the table as it is after its own poll (U-JCMD). NOT covered (outside any single-call contract): what Ctrl-C / Ctrl-Z do, report-once, the parent-side setpgid (the race it closes is outside '
+            'the sequential model); kernel tty layer and tcsetpgrp success assumed.',
 }
 
 META['C11'] = {
@@ -181,7 +186,8 @@ META['C11'] = {
             'not single-quoted / escaped / whole-backquoted and contain a substitution change, an inner command is run at most once per planning, a builtin captures its output only as the '
             'last stage of a captured pipeline, and the two passes run in the fixed order.',
     'note': 'that the replacement is the command\'s stdout and the trimming are kernel / std behaviour; inner from_line / run_pipeline are external (contracts in U-PLAN / U-FD); '
-            'no finding is listed after fixes 896ac58, 6c5e4a8, 6f9ff83.',
+            'the output loses its trailing newlines only (strip_nl), the inner stderr is passed on, a captured function call yields what its commands wrote, a captured pipeline reports its status; '
+            'four known findings (bounded): brace pass on the inner text, builtins in $(..) change the shell, assignment values unquoted again, stderr larger than a pipe.',
 }
 
 _PENDING = 'not yet brought under contract in this revision of /verif (work in progress; see DESIGN.md)'
